@@ -314,6 +314,11 @@ func Evolve(envF *model.Env, tf *model.Type, envT *model.Env, tt *model.Type, v 
 	case uf.Kind == model.KOptional && ut.Kind != model.KOptional && ut.Kind != model.KUnion:
 		// T? -> T: "default zero value" when absent
 		if v.Case == 0 {
+			if envF.Canon(envF.Underlying(uf.Elem)) != envT.Canon(ut) || !sameDefs(envF, uf.Elem, envT, ut) {
+				// the document does not say whether the zero value is taken before or after a
+				// further conversion of the payload ("" does not parse as a number, for instance)
+				return unspec("zero value combined with a further conversion")
+			}
 			z, ok := Zero(envT, ut)
 			if !ok {
 				return unspec("zero value not documented for this type")
@@ -358,17 +363,31 @@ func Evolve(envF *model.Env, tf *model.Type, envT *model.Env, tt *model.Type, v 
 	return unspec(fmt.Sprintf("conversion between %s and %s is not documented", envF.Canon(uf), envT.Canon(ut)))
 }
 
-// sameDefs: the named types reachable from both types have identical definitions.
+// sameDefs: every named type reachable from the type (transitively, through aliases, record
+// fields and type arguments) has the same definition in both models.
 func sameDefs(envF *model.Env, tf *model.Type, envT *model.Env, tt *model.Type) bool {
 	same := true
-	model.Walk(tf, func(x *model.Type) {
-		if x.Kind == model.KRef {
+	seen := map[string]bool{}
+	var visitT func(t *model.Type)
+	visitT = func(t *model.Type) {
+		model.Walk(t, func(x *model.Type) {
+			if x.Kind != model.KRef {
+				return
+			}
+			k := x.Ns + "." + x.Name
+			if seen[k] {
+				return
+			}
+			seen[k] = true
 			df, dt := envF.Lookup(x.Ns, x.Name), envT.Lookup(x.Ns, x.Name)
 			if df == nil || dt == nil || canonDef(df) != canonDef(dt) {
 				same = false
+				return
 			}
-		}
-	})
+			model.DefTypes(df, visitT)
+		})
+	}
+	visitT(tf)
 	return same
 }
 
